@@ -72,11 +72,14 @@ class Lat:
     """One instance's exact frame: real component = origin + fine * unit.  `swap`: the code's component 0 is the
     lattice's y direction (ArrayTriangles.for_limits_and_scale stores (y, x))."""
 
-    def __init__(self, ux, uy, ox, oy, swap=False, lattice=True, exact=False):
+    def __init__(self, ux, uy, ox, oy, swap=False, lattice=True, exact=False, whole=False):
         self.ux, self.uy, self.ox, self.oy, self.swap, self.lattice = float(ux), float(uy), float(ox), float(oy), swap, lattice
         # exact: units and origin are small dyadic numbers, so every vertex and every b + c - a is an exact float and
         # coincident vertices are bit-identical (no tolerance involved in de-duplication)
         self.exact = bool(exact)
+        # whole: every level-0 vertex is a whole number in real units, so the same vertices can be given as int64 / int32 /
+        # float32 arrays as well (midpoints are then half- and quarter-integers: truncation would be visible)
+        self.whole = bool(whole)
         self.max_res = 0.0
 
     @classmethod
@@ -192,10 +195,8 @@ class State:
 
 
 def _arr_view(lat, rep, obj):
-    """the other representation of the same object: coordinate form -> with_vertices(vertices); array form -> V[I]."""
-    if rep == "coord":
-        return lat.alpha_tris(obj.with_vertices(obj.vertices).triangles)
-    return lat.alpha_tris(np.asarray(obj.vertices)[np.asarray(obj.indices)])
+    """the same object through with_vertices(its own vertices) (coordinate form -> array form; array form -> array form)."""
+    return lat.alpha_tris(obj.with_vertices(obj.vertices).triangles)
 
 
 def construct_records(st, src, base, model=None):
@@ -297,7 +298,7 @@ def replay_group(args):
     coords = np.array(c, dtype=int if rng.random() < 0.7 else float).reshape(-1, 2)
     obj = CoordinateArrayTriangles(coordinates=coords, side_length=side, x_offset=xo, y_offset=yo, flipped=bool(fl))
     st0 = State(lat, obj, obj.with_vertices(obj.vertices))
-    base = {"p": "C20", "g": {"kind": "beh", "c": c, "fl": bool(fl), "side": side, "xo": xo, "yo": yo}}
+    base = {"p": "C20", "dt": "f64", "g": {"kind": "beh", "c": c, "fl": bool(fl), "side": side, "xo": xo, "yo": yo}}
     recs = construct_records(st0, "coords", dict(base, path=[]), model={"c": c, "fl": bool(fl), "w": F0, "xo": 0, "yo": 0})
     memo = {(): st0}
     key = lambda p: tuple((s["a"], json.dumps(s["t"])) for s in p)
@@ -318,10 +319,29 @@ def replay_group(args):
 DYADIC_UNITS = [1.0, 0.5, 0.125, 2.0, 0.015625]
 DYADIC_OFFSETS = [0.0, 0.5, -1.25, -0.015625, 3.0]
 REALISATIONS = ("direct", "with_vertices", "for_indexes")
+DTYPES = {"f64": np.float64, "i64": np.int64, "i32": np.int32, "f32": np.float32}
+OTHER_DTYPES = ("i64", "i32", "f32", "i64", "i32")
 
 
-def free_lattice(rng):
-    """gamma frame of an irregular array: mostly exact (dyadic units and origin), sometimes decimal / arbitrary."""
+def cast(arr, dt):
+    """the same vertices in another array representation (only whole numbers are ever cast)."""
+    a = np.asarray(arr, dtype=float)
+    if dt == "f64":
+        return a
+    if not np.array_equal(a, np.rint(a)):
+        raise core.MachineryError(f"cast to {dt} of vertices that are not whole numbers")
+    return a.astype(DTYPES[dt])
+
+
+def free_lattice(rng, whole=None, fine=1):
+    """gamma frame of an irregular array whose level-0 vertices are multiples of `fine` fine units: whole-number frames
+    (real grid step 1, 2 or 3, integer origin, negative and positive), else mostly exact (dyadic units and origin),
+    sometimes decimal / arbitrary."""
+    if whole is None:
+        whole = rng.random() < 0.4
+    if whole:
+        return Lat(float(rng.choice([1, 1, 1, 2, 3])) / fine, float(rng.choice([1, 1, 1, 2])) / fine, float(rng.choice([-3, -2, 0, 1, 5])),
+                   float(rng.choice([-3, -1, 0, 2])), lattice=False, exact=True, whole=True)
     if rng.random() < 0.75:
         return Lat(float(rng.choice(DYADIC_UNITS)), float(rng.choice(DYADIC_UNITS)), float(rng.choice(DYADIC_OFFSETS)),
                    float(rng.choice(DYADIC_OFFSETS)), lattice=False, exact=True)
@@ -333,16 +353,16 @@ def _nondeg(a, b, c):
     return (b[0] - a[0]) * (c[1] - a[1]) - (b[1] - a[1]) * (c[0] - a[0]) != 0
 
 
-def realise_free(lat, V, I, how, rng, base, src):
-    """gamma of the abstract array (V: integer points, I: 0-based triples): a real ArrayTriangles built in one of three
-    ways.  Returns (object, records of the calls made on the way)."""
+def realise_free(lat, V, I, how, rng, base, src, dt="f64", fine=1):
+    """gamma of the abstract array (V: integer points in fine units, I: 0-based triples): a real ArrayTriangles built in
+    one of three ways, its vertex array given as dtype `dt`.  Returns (object, records of the calls made on the way)."""
     from autoarray.structures.triangles.array import ArrayTriangles
 
     V = [list(map(int, v)) for v in V]
     nv = len(V)
     perm = rng.permutation(nv)  # the caller's vertex order is arbitrary
     inv = np.argsort(perm)
-    real = lambda pts: np.array([lat.gamma(x, y) for x, y in pts], dtype=float).reshape(-1, 2)
+    real = lambda pts: cast(np.array([lat.gamma(x, y) for x, y in pts], dtype=float).reshape(-1, 2), dt)
     Vp = [V[j] for j in perm]
     Ip = [[int(inv[j]) for j in rng.permutation(t)] for t in I]  # vertex order inside a triangle is arbitrary too
     recs = []
@@ -350,12 +370,13 @@ def realise_free(lat, V, I, how, rng, base, src):
         obj = ArrayTriangles(indices=np.array(Ip), vertices=real(Vp))
     elif how == "with_vertices":
         # a regular set with the same connectivity whose vertices are then replaced by the irregular ones
-        regular = np.array([[float(j % 3), float(j // 3)] for j in range(nv)])
+        # (itself given as a float or an integer array: the replaced vertices must not inherit anything from it)
+        regular = np.array([[j % 3, j // 3] for j in range(nv)], dtype=(np.float64, np.int64, np.int32)[int(rng.integers(0, 3))])
         obj = ArrayTriangles(indices=np.array(Ip), vertices=regular).with_vertices(real(Vp))
     elif how == "for_indexes":
         # a larger set (extra vertices beyond the grid, extra triangles) from which the array is selected
         xmax = max(v[0] for v in V)
-        extra_v = [[xmax + 2 + j, int(rng.integers(-1, 3))] for j in range(int(rng.integers(1, 3)))]
+        extra_v = [[xmax + fine * (2 + j), fine * int(rng.integers(-1, 3))] for j in range(int(rng.integers(1, 3)))]
         allv = Vp + extra_v
         extra_t = []
         for _ in range(int(rng.integers(1, 4))):
@@ -384,20 +405,40 @@ def _hash_rng(seed, ints):
     return h
 
 
+FREE_FINE = 2 ** MAXLEVEL  # spec: FreeUnit, fine units per grid step of an irregular array of the machine
+
+
+def free_variants(h, quick):
+    """(how, whole-number frame?, dtype) realisations of one enumerated array."""
+    if quick:
+        how = REALISATIONS[h % 3]
+        if (h // 3) % 3 == 0:
+            return [(how, False, "f64")]
+        return [(how, True, "f64"), (how, True, OTHER_DTYPES[(h // 9) % 3])]
+    out = []
+    for j, how in enumerate(REALISATIONS):
+        out += [(how, True, "f64"), (how, True, OTHER_DTYPES[(h + j) % 3])]
+    out.append((REALISATIONS[h % 3], False, "f64"))
+    return out
+
+
 def replay_free_group(args):
-    """S->C: one irregular vertex/index array of the machine and its behaviours (nbr, nbr-nbr)."""
-    v, ix, paths, seed, hows = args
+    """S->C: one irregular vertex/index array of the machine and its behaviours (nbr, nbr-nbr, up, up-up, up-nbr, obs,
+    up-obs), in several realisations; realisations that differ only in the dtype hold the SAME vertices."""
+    v, ix, paths, seed, variants = args
     recs = []
     maxres = 0.0
     h = _hash_rng(seed, [x for p_ in v for x in p_] + [x for t in ix for x in t])
-    if hows is None:
-        hows = (REALISATIONS[h % 3],)
+    if variants is None or isinstance(variants, bool):
+        variants = free_variants(h, bool(variants) if variants is not None else True)
     I0 = [[int(j) - 1 for j in t] for t in ix]
-    for how in hows:
-        rng = np.random.default_rng([h, REALISATIONS.index(how)])
-        lat = free_lattice(rng)
-        base = {"p": "C20", "g": {"kind": "free-beh", "v": v, "ix": ix, "how": how, "frame": lat.describe()}}
-        obj, rs = realise_free(lat, v, I0, how, rng, base, "free")
+    vf = [[FREE_FINE * int(x), FREE_FINE * int(y)] for x, y in v]
+    for how, whole, dt in variants:
+        rng = np.random.default_rng([h, REALISATIONS.index(how), int(whole)])  # the same frame and orders for every dtype
+        lat = free_lattice(rng, whole=whole, fine=FREE_FINE)
+        base = {"p": "C20", "dt": dt, "g": {"kind": "free-beh", "v": v, "ix": ix, "how": how, "whole": bool(whole), "dt": dt,
+                                           "frame": lat.describe()}}
+        obj, rs = realise_free(lat, vf, I0, how, rng, base, "free", dt=dt, fine=FREE_FINE)
         recs.extend(rs)
         st0 = State(lat, None, obj)
         recs.extend(construct_records(st0, "free", dict(base, path=[])))
@@ -421,7 +462,7 @@ def free_inputs(fams):
 
     out = set()
     for gx, gy, nv, nt in fams:
-        pts = sorted((x, y) for x in range(gx) for y in range(gy))
+        pts = sorted((x, y) for x in range(-(gx // 2), gx - gx // 2) for y in range(-(gy // 2), gy - gy // 2))
         for Vs in itertools.combinations(pts, nv):
             tr = [t for t in itertools.combinations(range(nv), 3) if _nondeg(Vs[t[0]], Vs[t[1]], Vs[t[2]])]
             for n in range(2, min(nt, len(tr)) + 1):
@@ -471,7 +512,7 @@ def random_instance(args):
         rng = np.random.default_rng([seed, k, 20])
         fam = ("coords", "coords", "limits-coord", "limits-array", "free", "irregular")[k % 6]
     g = {"kind": "rand", "seed": seed, "k": k, "family": fam}
-    base = {"p": "C20", "g": g, "path": []}
+    base = {"p": "C20", "dt": "f64", "g": g, "path": []}
     side = SIDES[int(rng.integers(0, len(SIDES)))] if rng.random() < 0.5 else float(rng.uniform(0.05, 3.0))
     recs = []
     if fam == "coords":
@@ -534,9 +575,11 @@ def random_instance(args):
                     break
         if not I:
             return []
-        lat = free_lattice(rng)
+        lat = free_lattice(rng, fine=4)
         ux, uy, ox, oy = lat.ux, lat.uy, lat.ox, lat.oy
-        verts = np.stack([ox + V[:, 0] * ux, oy + V[:, 1] * uy], axis=1)
+        dt = str(rng.choice(["f64", "i64", "i32", "f32"])) if lat.whole else "f64"
+        base = dict(base, dt=dt, g=dict(g, dt=dt))
+        verts = cast(np.stack([ox + V[:, 0] * ux, oy + V[:, 1] * uy], axis=1), dt)
         obj = ArrayTriangles(indices=np.array(I), vertices=verts)
         st = State(lat, None, obj)
         src = "free"
@@ -582,7 +625,8 @@ def irregular_instance(rng, base):
     lat = free_lattice(rng)
     recs = []
     how = ("direct", "with_vertices", "for_indexes", "distorted")[int(rng.integers(0, 4))]
-    base = dict(base, g=dict(base["g"], how=how))
+    dt = str(rng.choice(["f64", "i64", "i32", "f32"])) if lat.whole else "f64"
+    base = dict(base, dt=dt, g=dict(base["g"], how=how, dt=dt))
     if how == "distorted":
         # a regular lattice set in the coordinate representation; its vertex array is replaced by integer points
         n = int(rng.choice([3, 4, 5, 6, 7, 8], p=[0.1, 0.1, 0.1, 0.2, 0.25, 0.25]))
@@ -597,7 +641,7 @@ def irregular_instance(rng, base):
                 break
         else:
             return []
-        obj = reg.with_vertices(np.array([lat.gamma(int(x), int(y)) for x, y in V], dtype=float))
+        obj = reg.with_vertices(cast(np.array([lat.gamma(int(x), int(y)) for x, y in V], dtype=float), dt))
         src = "distorted"
     else:
         nt = int(rng.choice([3, 4, 5, 6, 7, 8], p=[0.1, 0.1, 0.1, 0.2, 0.25, 0.25]))  # larger sets: more vertex positions
@@ -622,7 +666,7 @@ def irregular_instance(rng, base):
         remap = {j: k_ for k_, j in enumerate(used)}
         V = V[used]
         I = [[remap[j] for j in t] for t in sorted(I)]
-        obj, rs = realise_free(lat, V.tolist(), I, how, rng, base, "free")
+        obj, rs = realise_free(lat, V.tolist(), I, how, rng, base, "free", dt=dt)
         recs += rs
         src = "free"
     st = State(lat, None, obj)
@@ -696,9 +740,9 @@ def validate(ctx, records, tag, per_chunk=60000, max_chunks=12):
         if g.get("kind") == "beh":
             where = f"coords={g.get('c')} flipped={g.get('fl')} side={g.get('side')} offsets=({g.get('xo')},{g.get('yo')})"
         elif g.get("kind") == "free-beh":
-            where = f"vertex array vertices={g.get('v')} indices(1-based)={g.get('ix')} built {g.get('how')}"
+            where = f"vertex array vertices={g.get('v')} indices(1-based)={g.get('ix')} built {g.get('how')} dtype={g.get('dt')} frame={g.get('frame')}"
         else:
-            where = f"random instance k={g.get('k')} family={g.get('family')}" + (f" built {g.get('how')}" if g.get("how") else "")
+            where = f"random instance k={g.get('k')} family={g.get('family')}" + (f" built {g.get('how')}" if g.get("how") else "") + (f" dtype={g.get('dt')}" if g.get("dt") else "")
         want = rj.get("want")
         if len(json.dumps(want)) > 4000:
             want = "(large; re-run the replay file)"
@@ -767,9 +811,13 @@ def run(ctx):
                   "up_samplings": f"0..{MAXLEVEL}", "up/nbr_on_sets_up_to": maxlenup, "containment_on_sets_up_to": maxlenobs,
                   "for_indexes_on_sets_up_to": maxlensel, "all_index_subsets_up_to": selallmax,
                   "queries": "all quarter-unit lattice points strictly inside a triangle, as Point and (by turn) Circle/Square/Polygon/Triangle",
-                  "irregular_arrays": "every array of nv distinct grid points with 2..nt non-degenerate triangles using all of them; neighborhood "
-                                      "and (sets <= 16) its neighbourhood; realised directly / via with_vertices / via for_indexes "
-                                      + ("(one way per array, by turn)" if quick else "(all three ways)"),
+                  "irregular_arrays": "every array of nv distinct points of an origin-straddling integer grid with 2..nt non-degenerate "
+                                      "triangles using all of them; neighborhood, its neighbourhood, up_sample (twice for small sets), "
+                                      "up_sample+neighborhood, containing_indices on all half-step points inside a triangle; realised directly / "
+                                      "via with_vertices / via for_indexes " + ("(one way per array, by turn)" if quick else "(all three ways)"),
+                  "vertex_array_representations": "two thirds of the arrays (quick; all in thorough) get a whole-number frame (grid step 1, 2 or 3, "
+                                                  "integer origin) and are given as float64 AND as int64 / int32 / float32 (by turn) holding the same "
+                                                  "vertices; lists are not usable as vertex arrays (TypeError in .triangles) and are not exercised",
                   "random_instances": nrand, "additional_random_irregular_arrays_(3..8_triangles)": nirr, "sides": SIDES + ["uniform(0.05,3)"], "offsets": OFFSETS + ["uniform(-3,3)"],
                   "tolerance_fine_units": TOL}
     t0 = time.time()
@@ -808,7 +856,7 @@ def run(ctx):
     # batches keep the memory of the recorded calls bounded; every batch (behaviours of up to 1200 initial inputs plus
     # the records of up to 1000 random instances) is validated by its own TLC processes
     groups.sort(key=lambda g: (len(g[0]), g[0], g[1], g[2], g[3]))
-    hows = None if quick else REALISATIONS
+    hows = bool(quick)  # free_variants(h, quick): which realisations / dtypes every enumerated array gets
     batch = 1200
     ks = list(range(nrand)) + [-(j + 1) for j in range(nirr)]
     rand_batches = [ks[b : b + 1000] for b in range(0, len(ks), 1000)]
@@ -855,8 +903,8 @@ def replay(ctx, rp):
     if g["kind"] == "beh":
         recs, _ = replay_group((g["c"], g["fl"], paths, ctx.seed))
     elif g["kind"] == "free-beh":
-        paths = [p for p in paths if all(s_["a"] == "nbr" for s_ in p)]
-        recs, _ = replay_free_group((g["v"], g["ix"], paths, ctx.seed, (g["how"],)))
+        paths = [p for p in paths if p[0]["a"] != "sel"]  # (the selection of the for_indexes realisation is re-made by it)
+        recs, _ = replay_free_group((g["v"], g["ix"], paths, ctx.seed, [(g["how"], g.get("whole", False), g.get("dt", "f64"))]))
     else:
         recs = random_instance((g["seed"], g["k"]))
     rej = validate(ctx, recs, "C20-replay")
